@@ -308,8 +308,20 @@ def signature(case, detail):
             "has_delay": case.get("kmax") is not None}
 
 
+def run_impl_parallel(cases, jobs=8):
+    """the implementation side, split over a few interpreter processes (each case is independent)"""
+    if len(cases) < 64:
+        return F.run_impl(IMPL, {"cases": cases})
+    import concurrent.futures as cf
+    n = (len(cases) + jobs - 1) // jobs
+    chunks = [cases[a:a + n] for a in range(0, len(cases), n)]
+    with cf.ThreadPoolExecutor(jobs) as ex:
+        parts = list(ex.map(lambda ch: F.run_impl(IMPL, {"cases": ch}), chunks))
+    return [r for part in parts for r in part]
+
+
 def evaluate(cases):
-    impl = F.run_impl(IMPL, {"cases": cases})
+    impl = run_impl_parallel(cases)
     terms, spans = [], []
     for c in cases:
         syn = synapses(c)
